@@ -47,9 +47,12 @@ theorem loadAndVerify_inv {P : Parsers} {bs : List Nat} {st : RState} {T C F : L
             split at h
             · cases h
             · rename_i box hx
-              simp only [Except.ok.injEq] at h
-              subst h
-              exact ⟨rfl, rfl, rfl, rfl⟩
+              try simp only at h
+              split at h
+              · first | (cases h; done) | (simp [throw, throwThe, MonadExceptOf.throw] at h; done)
+              · simp only [Except.ok.injEq] at h
+                subst h
+                exact ⟨rfl, rfl, rfl, rfl⟩
 
 theorem take_length_le (l : List Nat) (k : Nat) : (l.take k).length ≤ k := by
   rw [List.length_take]; omega
